@@ -314,6 +314,32 @@ fn sweep(ctx: &mut Ctx, which: Which) {
             }
         }
     }
+    // every tree of depth <= 3 over a minimal structural alphabet {a[0], b[1], 1} x {sin, unary minus} x {+}:
+    // nesting shapes (a wrapper around a compound as a right operand, wrappers of wrappers, ...) rather
+    // than operator variety
+    {
+        let l0 = vec![Ex::Addr("a".into(), 0), Ex::Addr("b".into(), 1), Ex::Num(1.0, 0.0)];
+        let mut cur = l0.clone();
+        for _ in 0..3 {
+            let mut nx = l0.clone();
+            for e in &cur {
+                nx.push(Ex::Fn(3, Box::new(e.clone())));
+                nx.push(Ex::Pre(0, Box::new(e.clone())));
+            }
+            for a in &cur {
+                for b in &cur {
+                    nx.push(Ex::In(1, Box::new(a.clone()), Box::new(b.clone())));
+                }
+            }
+            cur = nx;
+        }
+        ctx.bound("structural_depth3_trees", json!(cur.len()));
+        for e in &cur {
+            if ctx.take(|| json!({"expr": e.show()})) {
+                eval_case(ctx, which, e, &pts, &mut shrinks);
+            }
+        }
+    }
     if ctx.tier == Tier::Thorough {
         // reduced alphabet, depth 3 with one deep branch: unary over depth-2, infix of (depth<=2) x (depth<=1) both ways
         let rs = Space::new(reduced_leaves(), vec![3, 4], vec![0], vec![0, 1, 2, 3, 4]);
@@ -369,7 +395,7 @@ pub static C03: PropDef = PropDef {
     id: "C03",
     level: "exploration",
     engine: "sweep",
-    rule: "every expression tree of depth <= 2 over leaves {0,1,-1,2.5,1+2i,-2i,pi,%x,%y,a[0],b[1]}, the 5 functions, prefix -/+ and the 5 infix operators, built through the public constructors (2.4 M trees), plus a balanced depth-3 layer: (affine side) op (affine side) with sides (L*M)+N, N-(L/M), ... over {%x, %y, 2.5, a[0]} (512 sides; op in {+,-}, thorough all five); thorough adds a reduced-alphabet depth-3 layer with one deep branch. Each is printed, parsed back and both are evaluated at 3 generic points and 3 special ones (all 0; all 1; x = 2.5, y = -1, i.e. values colliding with literal leaves). non-trivial = non-leaf tree, distinct by structure",
+    rule: "every expression tree of depth <= 2 over leaves {0,1,-1,2.5,1+2i,-2i,pi,%x,%y,a[0],b[1]}, the 5 functions, prefix -/+ and the 5 infix operators, built through the public constructors (2.4 M trees), plus a balanced depth-3 layer: (affine side) op (affine side) with sides (L*M)+N, N-(L/M), ... over {%x, %y, 2.5, a[0]} (512 sides; op in {+,-}, thorough all five), and every tree of depth <= 3 over the structural alphabet {a[0], b[1], 1} x {sin, unary minus} x {+} (132 528 trees); thorough adds a reduced-alphabet depth-3 layer with one deep branch. Each is printed, parsed back and both are evaluated at 3 generic points and 3 special ones (all 0; all 1; x = 2.5, y = -1, i.e. values colliding with literal leaves). non-trivial = non-leaf tree, distinct by structure",
     assumptions: ASSUME,
     run: |ctx| sweep(ctx, Which::C03),
     replay: |c| replay(Which::C03, c),
@@ -379,7 +405,7 @@ pub static C12: PropDef = PropDef {
     id: "C12",
     level: "exploration",
     engine: "sweep",
-    rule: "every expression tree of depth <= 2 over the same alphabet as C03 (2.4 M trees) plus the balanced depth-3 layer of C03 (affine sides; 524 288 trees, thorough 1.3 M); thorough adds reduced depth 3 with one deep branch; each is simplified by the real simplifier and original and result are evaluated at 3 generic points and 3 special ones (all 0; all 1; x = 2.5, y = -1) wherever the original is finite and well-conditioned (tolerance 1e-9 mixed; a non-finite result where the original is finite is a violation), plus: no new variables / references, no pi, simplify() == into_simplified(). non-trivial = non-leaf tree",
+    rule: "every expression tree of depth <= 2 over the same alphabet as C03 (2.4 M trees) plus the balanced depth-3 layer and the structural depth-3 layer of C03; thorough adds reduced depth 3 with one deep branch; each is simplified by the real simplifier and original and result are evaluated at 3 generic points and 3 special ones (all 0; all 1; x = 2.5, y = -1) wherever the original is finite and well-conditioned (tolerance 1e-9 mixed; a non-finite result where the original is finite is a violation), plus: no new variables / references, no pi, simplify() == into_simplified(). non-trivial = non-leaf tree",
     assumptions: ASSUME,
     run: |ctx| sweep(ctx, Which::C12),
     replay: |c| replay(Which::C12, c),
@@ -389,7 +415,7 @@ pub static C13: PropDef = PropDef {
     id: "C13",
     level: "exploration",
     engine: "sweep",
-    rule: "every expression tree of depth <= 2 over the same alphabet (plus the balanced depth-3 layer of C03) x 2 value assignments (a generic one and one whose values collide with literal leaves of the alphabet) x all 4 subsets of {x,y} bound x 4 memory maps (none, a only, a and b, a too short): evaluate is Ok iff everything is supplied, substitute-then-evaluate == evaluate, memory_references == address leaves (multiset), partial substitution keeps other variables. non-trivial = non-leaf tree",
+    rule: "every expression tree of depth <= 2 over the same alphabet (plus the balanced and the structural depth-3 layers of C03) x 2 value assignments (a generic one and one whose values collide with literal leaves of the alphabet) x all 4 subsets of {x,y} bound x 4 memory maps (none, a only, a and b, a too short): evaluate is Ok iff everything is supplied, substitute-then-evaluate == evaluate, memory_references == address leaves (multiset), partial substitution keeps other variables. non-trivial = non-leaf tree",
     assumptions: &["finite lattice of literal values and one value assignment per variable"],
     run: |ctx| sweep(ctx, Which::C13),
     replay: |c| replay(Which::C13, c),
